@@ -362,7 +362,7 @@ def gen_int(G):
     t, L, c = G.t, G.L, G.c; o = []
     if isf(t) or t == 'bool': return o
     for f in ('bitCount', 'findLSB', 'findMSB'): o.append(fn_case(G, f, ['v'], out='int'))
-    if wd(t) >= 32:     # 8/16-bit instantiations of bitfieldReverse / bitfieldInsert do not compile (int-promoted mask against vec<L,T>), see C05
+    if True:            # (8/16-bit instantiations compile since repair f0b2f03)
         o.append(fn_case(G, 'bitfieldReverse', ['v']))
         o.append(fn_case(G, 'bitfieldInsert', ['vvjj'], pre=p_bitfield(t, L, 2, 3), bounds='0 <= offset, 0 <= bits, offset+bits <= width'))
     o.append(fn_case(G, 'bitfieldExtract', ['vjj'], pre=p_bitfield(t, L, 1, 2), bounds='0 <= offset, 0 <= bits, offset+bits <= width'))
@@ -510,6 +510,8 @@ def build(tier):
                 mk(group, t, ql, cases, split=2 if group in ('ops', 'exptrig', 'common') else 1)
             if t != 'bool':
                 mk('mat', t, ql, gen_mat(Ctx(t, 0, ql), MATS_Q if q else MATS_T), split=3 if isf(t) else 1)
+    if q:   # the carry / extended-multiply overloads exist for uint only: keep the uint integer group in the quick tier
+        mk('int', 'u32', 'highp', [C for L in (1, 2, 3, 4) for C in gen_int(Ctx('u32', L, 'highp'))])
     if q:   # the lowp specialisation of inversesqrt is separate code: keep it in the quick tier
         mk('exptrig', 'f32', 'lowp', [C for L in (1, 2, 3, 4) for C in gen_exptrig(Ctx('f32', L, 'lowp')) if C.name.startswith(('inversesqrt', 'sqrt', 'exp2'))])
     for t in (['f32', 'i32'] if q else ['f32', 'f64', 'i32', 'u8', 'i64']):
